@@ -60,7 +60,7 @@ int32_t matrixSslValidatePeerCerts(ssl_t *ssl,
 {
     matrixValidateCertsOptions_t *opts;
     psX509Cert_t *foundIssuer;
-    int32_t rc;
+    int32_t rc, validateRc;
 
     opts = &ssl->validateCertsOpts;
 
@@ -79,9 +79,19 @@ int32_t matrixSslValidatePeerCerts(ssl_t *ssl,
         return MATRIXSSL_ERROR;
     }
 
+    validateRc = rc;
+
     psCheckSetPathLenFailure(ssl, ssl->sec.cert);
     rc = psCheckValidationResult(ssl,
             ssl->sec.cert);
+    if (rc == PS_SUCCESS && validateRc < 0)
+    {
+        /* Validation failed without leaving the reason in any authStatus
+           (the failure codes of psX509AuthenticateCert are not all
+           mirrored there): never treat that as success. */
+        ssl->err = SSL_ALERT_BAD_CERTIFICATE;
+        rc = MATRIXSSL_ERROR;
+    }
     if (rc < 0)
     {
         if (ssl->sec.validateCert == NULL)
